@@ -929,13 +929,18 @@ class IMAPUserServer:
         Return the next uid_vv. Also update the underlying database
         so that its uid_vv state remains up to date.
         """
+        # NOTE: The value is ours from the moment we advance the counter.
+        #       Another task may advance it again while we wait for the
+        #       database, so do not read it back after the `await`.
+        #
         self.uid_vv += 1
+        uid_vv = self.uid_vv
         await self.db.execute(
             "UPDATE user_server SET uid_vv = ?",
-            (str(self.uid_vv),),
+            (str(uid_vv),),
             commit=True,
         )
-        return self.uid_vv
+        return uid_vv
 
     ##################################################################
     #
